@@ -104,6 +104,18 @@ CLAIMED = {
             'of depth <= 2 plus a selection of depth 3, container arity <= 2 (thorough 3); the MAX_ARRAY_LENGTH refusal is not exercised '
             '(collections are concrete-length).',
             'DESIGN.md §6 C13'),
+    'C14': ('n fully symbolic bytes are decoded by the real deserialize_value with the real registry (no stubs): on every path '
+            'the decoder returns a value built from supported/registered types or raises an ordinary Exception, within a step bound '
+            '(non-termination is reported as a violation and replayed under an alarm), with work and number of stream reads linear in n. '
+            'A per-container lemma runs each length-prefixed reader with an arbitrary declared length (any 41-bit int) against a '
+            'stream that actually holds 0..k elements: the loop count is bounded by the elements present, never by the declared '
+            'length, over-limit lengths are refused, reads never return more than is present. The three handshake entry points run '
+            'on arbitrary message bytes (symbolic bytes, or the right type id around arbitrary fields).',
+            'Trusted: sx engine, BytesIO/struct models, ideal crypto model for the key/signature parsing steps. Work is counted in '
+            'loop iterations, function entries and stream reads of the Python code, not in bytes allocated by CPython. Bounds: n <= 4 '
+            '(thorough 6) symbolic bytes; <= 3 (thorough 6) elements present. loadz/load_persistant (documented private) are outside; '
+            'RecursionError is an ordinary exception.',
+            'DESIGN.md §6 C14'),
 }
 
 NOT_YET = 'check not built yet in this round (planned: see DESIGN.md §6); not claimed'
